@@ -2,18 +2,20 @@
 from checks import syntaxtl2_gen as G
 from vlib.core import hx
 
-LEVEL = "exploration"
+LEVEL = "translation_validation"
 MODULES = ["TLVerif.Props.C22"]
 THEOREMS = ["TLVerif.Props.C22." + t for t in [
     "canonical_print_core_only", "print_visible_only", "canonical_idempotent_of_roundtrip",
     "default_idempotent_of_visible_roundtrip", "wOne_parsed", "wDep_parsed", "roundtrip_fails_at_one_variant_union",
     "roundtrip_fails_at_dep_name", "statement_fails", "witnesses_outside_guard",
-    "type_roundtrip_tokens", "fields_roundtrip_tokens", "struct_roundtrip_tokens"]]
+    "type_roundtrip_tokens", "fields_roundtrip_tokens", "struct_roundtrip_tokens", "parse_of_printed_token_sequence",
+    "roundtrip_of_lex_certificate", "canonical_idempotent_of_lex_certificate"]]
 SOURCES = ["TLVerif.Syntaxtl2.Basic", "TLVerif.Syntaxtl2.Lexer", "TLVerif.Syntaxtl2.Text", "TLVerif.Syntaxtl2.Ast",
            "TLVerif.Syntaxtl2.Parser", "TLVerif.Syntaxtl2.Format", "TLVerif.Syntaxtl2.Driver",
            "TLVerif.Syntaxtl2.FormatLemmas", "TLVerif.Syntaxtl2.RoundTripLemmas", "TLVerif.Syntaxtl2.StripLemmas",
            "TLVerif.Syntaxtl2.FieldLemmas", "TLVerif.Syntaxtl2.VariantLemmas", "TLVerif.Syntaxtl2.UnionLemmas",
-           "TLVerif.Syntaxtl2.StructLemmas"]
+           "TLVerif.Syntaxtl2.StructLemmas", "TLVerif.Syntaxtl2.DeclLemmas", "TLVerif.Syntaxtl2.CombLemmas",
+           "TLVerif.Syntaxtl2.FileLemmas"]
 
 # witnesses of the two known findings (known_findings.d/C22.json is keyed by these lines)
 W_DEP = "syntaxtl2.fmt c " + hx(b"a = _x:int;\n")
@@ -117,25 +119,35 @@ def run(c):
             dep_one = "dep=true" in a or "one=true" in a
             if not dep_one:
                 c.oracle_fail(l, "text produced by the formatter is not a fixed point of the formatter", l)
-    # T3-style certificate: the hypotheses of the token-level round-trip theorems (TypeRef.wf / Field.wf / StructDef.wf …)
-    # are evaluated by the model on the file it parsed from every accepted text (the tie shows it is the file Go parsed)
+    # T3 certificate: for every accepted text and both option sets the model evaluates (i) File.wf of the parsed file (the
+    # hypothesis of the token-level theorems) and (ii) the lexing certificate `lexCert (printFile o f) f`; where both hold,
+    # TLVerif.Props.C22.roundtrip_of_lex_certificate PROVES parse(format o f) ≃ f for that instance (the tie shows the model's
+    # f and text are Go's).
     from vlib.core import run_lines
-    wf_lines = sorted(set("syntaxtl2.wf " + l.split(" ")[2] for l, a, _ in res if a.startswith("ok ")))
-    wf_out = run_lines(model, wf_lines)
-    cert = {"evaluated": 0, "in_domain": 0, "outside_guard": 0, "outside_domain_under_guard": 0, "examples_outside": []}
-    for l, o in zip(wf_lines, wf_out):
+    cert_lines = sorted(set("syntaxtl2.cert %s %s" % (l.split(" ")[1], l.split(" ")[2]) for l, a, _ in res if a.startswith("ok ")))
+    cert_out = run_lines(model, cert_lines)
+    cert = {"evaluated": 0, "certified:c": 0, "certified:d": 0, "wf_but_no_lexcert:c": 0, "wf_but_no_lexcert:d": 0,
+            "outside_wf:c": 0, "outside_wf:d": 0, "other": 0}
+    implout = {l: a for l, a, _ in res}
+    for l, o in zip(cert_lines, cert_out):
         cert["evaluated"] += 1
-        if o == "ok guard=true wf=true":
-            cert["in_domain"] += 1
-        elif o.startswith("ok guard=false"):
-            cert["outside_guard"] += 1
+        opt = l.split(" ")[1]
+        if o == "ok wf=true lexcert=true":
+            cert["certified:" + opt] += 1
+            # a certified instance must round-trip on the implementation (else model/theorem/tie are inconsistent)
+            a = implout.get("syntaxtl2.fmt %s %s" % (opt, l.split(" ")[2]), "")
+            if "rt=same" not in a:
+                c.oracle_fail(l, "instance certified by roundtrip_of_lex_certificate does not round-trip on the implementation", l)
+        elif o == "ok wf=true lexcert=false":
+            cert["wf_but_no_lexcert:" + opt] += 1
+        elif o == "ok wf=false":
+            cert["outside_wf:" + opt] += 1
         else:
-            cert["outside_domain_under_guard"] += 1
-            if len(cert["examples_outside"]) < 5:
-                cert["examples_outside"].append(G.unhex(l.split(" ")[1])[:120].decode("utf-8", "replace"))
+            cert["other"] += 1
     c.extra["certificates"] = cert
-    c.count("cert:in_domain", cert["in_domain"])
-    c.count("cert:outside_domain_under_guard", cert["outside_domain_under_guard"])
+    c.extra["programs"] = cert["certified:c"] + cert["certified:d"]
+    for k, v in cert.items():
+        c.count("cert:" + k, v)
     c.extra["rule"] = ("one case = (options ∈ {default, canonical}, input text); the text is parsed by tlast.ParseTL2File, printed by "
                        "TL2File.String()/Print(canonical), parsed again (declarations compared by canonical dump) and printed again "
                        "(compared byte for byte); texts: all TL2 texts of the repository, files from the type-directed generator with random "
